@@ -16,7 +16,8 @@ fn c19(args: &Args) -> i32 {
     std::panic::set_hook(Box::new(|_| {}));
     unit::run(args, &mut sink, &mut rng);
     let rt = tokio::runtime::Builder::new_multi_thread().worker_threads(4).enable_all().build().unwrap();
-    let st = rt.block_on(e2e::run(args, &mut sink, &mut rng, &[IndexType::BTree, IndexType::Bitmap, IndexType::BTree], 3));
+    let kinds = |rng: &mut Rng, _ty: &arrow_schema::DataType| *rng.pick(&[IndexType::BTree, IndexType::Bitmap, IndexType::BTree]);
+    let st = rt.block_on(e2e::run(args, &mut sink, &mut rng, &kinds, 3, true));
     sink.add(st.scan);
     sink.add(st.class);
     sink.add(st.translate);
